@@ -191,6 +191,19 @@ func genC14(seed uint64) *C14Case {
 		dt = dtNames[r.Intn(len(dtNames))]
 		sh = g.pickShape(4)
 	}
+	if r.Intn(12) == 0 && len(sh) > 0 {
+		// now and then a stream that is longer than the usual buffer sizes (bufio's 4096 bytes, gob's
+		// and csv's internal buffers): a contiguous vector or matrix of 600-1500 elements
+		n := 600 + r.Intn(900)
+		if len(sh) == 1 || cs.Format == "csv" && r.Intn(2) == 0 {
+			sh = []int{n}
+			if cs.Format == "csv" {
+				sh = []int{n / 8, 8}
+			}
+		} else {
+			sh = []int{n / 25, 25}
+		}
+	}
 	op := g.opNew(dt, sh)
 	op.N &^= 4
 	if op.Mode == "of" {
